@@ -174,6 +174,12 @@ for col, cname, w in [("w", "White", True), ("b", "Black", False)]:
         ["generate_valid_moves"], "fully symbolic Disjoint board; symbolic subset kept by the filter stub",
         stubs=[NOSPILL, "generate_knight_moves, generate_sliding_moves, generate_king_moves, generate_pawn_moves, generate_castle_moves -> push one marker move and record (board, colour); remove_invalid_moves -> records the list it sees, keeps a symbolic subset; contracts discharged by the stage harnesses c01_*"],
         module=MG, est_s=60)
+    for fl in ["a", "h"]:
+        add(f"c01_wire_pawn_{col}_{fl}", ["C01"], "thorough",
+            f"generate_pawn_moves wiring for {cname}, last-rank destination on the {fl}-file (corner square): same contract as c01_wire_pawn_{col}",
+            ["generate_pawn_moves", "PAWN_PROMOTIONS", "PawnPromotionChessMove::new"], "fully symbolic Disjoint board; symbolic outputs of the stubbed sub-stages; destination squares concrete",
+            stubs=[NOSPILL, APPENDSTUB, "generate_pawn_move_targets, generate_pawn_attack_targets, expand_piece_targets, generate_en_passant_moves -> symbolic outputs + argument records"],
+            module=MG, unwind=10, est_s=400, heavy=True)
     add(f"c01_wire_pawn_{col}", ["C01"], "thorough",
         f"generate_pawn_moves for {cname} with its four sub-stages stubbed: capture targets = attack squares holding enemy pieces, a last-rank move becomes exactly the four promotions (same squares, same capture tag) and never stays standard, other moves stay, en-passant moves appended once, existing list entries preserved",
         ["generate_pawn_moves", "PAWN_PROMOTIONS", "PawnPromotionChessMove::new"],
@@ -365,6 +371,9 @@ add("c01_filter_fixed_promo_pair_b", ["C01"], "thorough",
 add("c01_leaper1_knight_w", ["C01", "C06"], "quick",
     "generate_targets_from_precomputed_tables(knight) for White, small shape (<=1 knight), uninterpreted tables: entry == (square, table[square] minus own pieces) iff the set is non-empty",
     ["Targets::generate_targets_from_precomputed_tables", "Targets::get_precomputed_targets"], "fully symbolic Disjoint board; <=1 own knight; tables symbolic [u64;64]", stubs=[NOSPILL], module=MG, unwind=66, est_s=150, native=[])
+add("c01_leaper2_knight_b", ["C01", "C06"], "quick",
+    "generate_targets_from_precomputed_tables(knight) for Black with <=2 knights, uninterpreted tables: both knights listed iff their sets are non-empty (one knight's empty set must not hide the other), entries == (square, table[square] minus own pieces), no duplicates",
+    ["Targets::generate_targets_from_precomputed_tables", "Targets::get_precomputed_targets"], "fully symbolic Disjoint board; <=2 own knights; tables symbolic [u64;64]", stubs=[NOSPILL], module=MG, unwind=66, est_s=460, native=[])
 add("c01_leaper1_king_b", ["C01", "C06"], "quick",
     "generate_targets_from_precomputed_tables(king) for Black, small shape (<=1 king), uninterpreted tables: entry == (square, table[square] minus own pieces) iff the set is non-empty",
     ["Targets::generate_targets_from_precomputed_tables", "Targets::get_precomputed_targets"], "fully symbolic Disjoint board; <=1 own king; tables symbolic [u64;64]", stubs=[NOSPILL], module=MG, unwind=66, est_s=150, native=[])
